@@ -578,3 +578,25 @@ def gen_sami_styled(rng, tag):
         t += rng.choice([1000, 2500])
     doc += '</BODY>\n</SAMI>\n'
     return {'format': 'sami', 'doc': doc, 'reader_kwargs': {}, 'read_kwargs': {}}
+
+
+# ------------------------------------------------------------------------------- reader reuse
+
+def with_prior(case, rng, tag, ctx, p=0.15, **genkw):
+    """In some cases the reader object has read another document of the format before (a reader that was used
+    before must behave as a fresh one)."""
+    if rng.random() < p:
+        prior = generate(case['format'], rng, tag + 'P', ctx, **genkw)
+        case['prior'] = {'doc': prior['doc'], 'read_kwargs': prior['read_kwargs']}
+    return case
+
+
+def reader_for(case, Reader, ctx):
+    reader = Reader(**case['reader_kwargs'])
+    if case.get('prior'):
+        try:
+            reader.read(case['prior']['doc'], **case['prior']['read_kwargs'])
+            ctx.count('reads_by_a_reader_object_used_before')
+        except Exception:
+            ctx.count('reads_by_a_reader_object_whose_previous_read_was_refused')
+    return reader
